@@ -38,6 +38,9 @@ pub struct IrrDb {
     pub errors: BTreeMap<String, String>,
     /// answer `C` instead of `D` for an AS without routes
     pub empty_as_c: bool,
+    /// make every answer at least this many bytes long without changing what it means: remarks lines in objects,
+    /// repeated members / routes in lists (real registries have objects and route lists of many kilobytes)
+    pub pad: usize,
 }
 
 impl IrrDb {
@@ -72,6 +75,7 @@ impl IrrDb {
                 .map(|o| o.iter().map(|(k, x)| (k.clone(), x.as_str().unwrap_or("D").to_string())).collect())
                 .unwrap_or_default(),
             empty_as_c: v["empty_as_c"].as_bool().unwrap_or(false),
+            pad: v["pad"].as_u64().unwrap_or(0) as usize,
         }
     }
 
@@ -127,6 +131,18 @@ impl IrrDb {
         Some(out)
     }
 
+    /// the same list, repeated until it is at least `pad` bytes long (a repeated member or route changes nothing)
+    fn padded(&self, words: &[String]) -> String {
+        if words.is_empty() || self.pad == 0 {
+            return Self::data(words);
+        }
+        let mut w: Vec<String> = words.to_vec();
+        while w.iter().map(|x| x.len() + 1).sum::<usize>() < self.pad {
+            w.extend_from_slice(words);
+        }
+        Self::data(&w)
+    }
+
     fn data(words: &[String]) -> String {
         if words.is_empty() {
             return "C\n".into();
@@ -163,10 +179,11 @@ impl IrrDb {
             }
             if upper.starts_with("RS-") {
                 return Some(match self.rs_members(name) {
-                    Some(m) => Self::data(&m),
+                    Some(m) => self.padded(&m),
                     None => "D\n".into(),
                 });
             }
+            // (member lists are not padded: every repeated member would cost two more queries)
             return Some(match self.as_members(name) {
                 Some(m) => Self::data(&m),
                 None => "D\n".into(),
@@ -174,18 +191,22 @@ impl IrrDb {
         }
         if let Some(asn) = q.strip_prefix("!g") {
             let r = self.routes4.get(&asn.to_uppercase()).cloned().unwrap_or_default();
-            return Some(if r.is_empty() && !self.empty_as_c { "D\n".into() } else { Self::data(&r) });
+            return Some(if r.is_empty() && !self.empty_as_c { "D\n".into() } else { self.padded(&r) });
         }
         if let Some(asn) = q.strip_prefix("!6") {
             let r = self.routes6.get(&asn.to_uppercase()).cloned().unwrap_or_default();
-            return Some(if r.is_empty() && !self.empty_as_c { "D\n".into() } else { Self::data(&r) });
+            return Some(if r.is_empty() && !self.empty_as_c { "D\n".into() } else { self.padded(&r) });
         }
         if let Some(rest) = q.strip_prefix("!m") {
             let (class, name) = rest.split_once(',').unwrap_or((rest, ""));
             if class == "filter-set" {
                 if let Some(expr) = self.filter_sets.get(&name.to_uppercase()) {
+                    let mut remarks = String::new();
+                    while remarks.len() < self.pad {
+                        remarks.push_str("remarks:        ------------------------------------------------------------\n");
+                    }
                     let obj = format!(
-                        "filter-set:     {name}\ndescr:          generated\nmp-filter:      {expr}\nchanged:        noc@example.net 20240101\ntech-c:         DUMY-TEST\nadmin-c:        DUMY-TEST\nmnt-by:         MAINT-TEST\nsource:         TEST\n"
+                        "filter-set:     {name}\ndescr:          generated\n{remarks}mp-filter:      {expr}\nchanged:        noc@example.net 20240101\ntech-c:         DUMY-TEST\nadmin-c:        DUMY-TEST\nmnt-by:         MAINT-TEST\nsource:         TEST\n"
                     );
                     return Some(format!("A{}\n{}C\n", obj.len(), obj));
                 }
